@@ -763,3 +763,146 @@ def module_qual(repo: Repo, full: str) -> Optional[tuple[Module, str]]:
         if m in repo.modules:
             return repo.modules[m], ".".join(parts[i:])
     return None
+
+
+# ======================================================================================================================
+# round 3 (preserving refactorings, second set): functions found where they live now, callables an expression can evaluate to,
+# "the value answered was asked about" as a path property
+# ======================================================================================================================
+def imports_of(repo: Repo, mod: Module) -> dict[str, tuple[str, str]]:
+    """local name -> (module of the package, original name) of every module-level `from m import n [as a]`, relative forms
+    (`from ._x import n`, `from . import n`) resolved against the module's own place in the package"""
+    out: dict[str, tuple[str, str]] = {}
+    is_pkg = mod.rel.endswith("__init__.py")
+    for st in mod.tree.body:
+        if not isinstance(st, ast.ImportFrom):
+            continue
+        if st.level == 0:
+            base = st.module or ""
+        else:
+            parts = mod.name.split(".")
+            if not is_pkg:
+                parts = parts[:-1]
+            up = st.level - 1
+            if up > len(parts):
+                continue
+            parts = parts[: len(parts) - up] if up else parts
+            base = ".".join(parts + ([st.module] if st.module else []))
+        for a in st.names:
+            out[a.asname or a.name] = (base, a.name)
+    return out
+
+
+def resolve_function(repo: Repo, mod: Module, name: str, depth: int = 0) -> Optional[tuple[Module, ast.FunctionDef]]:
+    """(module, def) of the module-level function a global name of `mod` stands for: defined there, or imported (followed through
+    re-exports) from another module of the package - a function that was moved is found where it lives now"""
+    if depth > 6:
+        return None
+    d = mod.defs.get(name)
+    if isinstance(d, (ast.FunctionDef, ast.AsyncFunctionDef)):
+        return mod, d  # type: ignore[return-value]
+    imp = imports_of(repo, mod)
+    if name in imp:
+        m2name, orig = imp[name]
+        if m2name in repo.modules:
+            return resolve_function(repo, repo.modules[m2name], orig, depth + 1)
+        sub = m2name + "." + orig  # `from pkg import module`
+        if sub in repo.modules:
+            return None
+    return None
+
+
+def callable_bodies(repo: Repo, mod: Module, cls_methods: dict, fn: ast.AST, e: ast.AST, depth: int = 0) -> Optional[list[ast.AST]]:
+    """the bodies (a Lambda's expression / a def) of every callable the expression can evaluate to: a lambda, a module-level function
+    (found where it lives), a method of the class taken from self, a def nested in the function, a local name bound to one of those, a
+    conditional expression of those, functools.partial(f, ..) of one.  None when some value of it is not resolved."""
+    if depth > 4:
+        return None
+    if isinstance(e, ast.Lambda):
+        return [e.body]
+    if isinstance(e, ast.IfExp):
+        a, b = callable_bodies(repo, mod, cls_methods, fn, e.body, depth + 1), callable_bodies(repo, mod, cls_methods, fn, e.orelse, depth + 1)
+        return None if a is None or b is None else a + b
+    if isinstance(e, ast.Call) and norm(e.func) in ("partial", "functools.partial") and e.args:
+        return callable_bodies(repo, mod, cls_methods, fn, e.args[0], depth + 1)
+    if self_attr(e) is not None:
+        m = cls_methods.get(self_attr(e))
+        return [m] if m is not None else None
+    if isinstance(e, ast.Name):
+        nested = [n for n in own_nodes(fn) if isinstance(n, (ast.FunctionDef, ast.AsyncFunctionDef)) and n.name == e.id]
+        defs = [v for t, v in assignments(fn) if isinstance(t, ast.Name) and t.id == e.id]
+        if nested or defs:
+            out: list[ast.AST] = list(nested)
+            for v in defs:
+                b = callable_bodies(repo, mod, cls_methods, fn, v, depth + 1)
+                if b is None:
+                    return None
+                out += b
+            return out
+        r = resolve_function(repo, mod, e.id)
+        return [r[1]] if r is not None else None
+    return None
+
+
+def bound_arguments(fn: ast.AST, call: ast.Call) -> Optional[dict[str, ast.expr]]:
+    """parameter name -> argument expression of a call of the plain function `fn` (None with * / ** arguments)"""
+    a = fn.args  # type: ignore[attr-defined]
+    pos = [x.arg for x in a.posonlyargs + a.args]
+    if any(isinstance(x, ast.Starred) for x in call.args) or any(k.arg is None for k in call.keywords) or len(call.args) > len(pos):
+        return None
+    out = {p: v for p, v in zip(pos, call.args)}
+    for k in call.keywords:
+        out[k.arg] = k.value  # type: ignore[index]
+    return out
+
+
+def definition_nodes(g: CFG, name: str) -> set[int]:
+    """the CFG nodes that bind the local name: an assignment (plain / annotated / augmented / walrus anywhere in the node), a `for`
+    head whose target has it, a `with .. as`, an `except .. as`"""
+    out: set[int] = set()
+    for nd in g.nodes:
+        st = nd.ast
+        if st is None:
+            continue
+        if nd.kind == "iter":
+            if name in target_names(st.target):
+                out.add(nd.id)
+            continue
+        if nd.kind == "handler":
+            if getattr(st, "name", None) == name:
+                out.add(nd.id)
+            continue
+        for x in cfg_node_exprs(nd):
+            if isinstance(x, ast.Assign) and any(name in target_names(t) for t in x.targets if isinstance(t, (ast.Name, ast.Tuple, ast.List, ast.Starred))):
+                out.add(nd.id)
+            elif isinstance(x, (ast.AnnAssign, ast.AugAssign, ast.NamedExpr)) and isinstance(x.target, ast.Name) and x.target.id == name and getattr(x, "value", None) is not None:
+                out.add(nd.id)
+            elif isinstance(x, ast.withitem) and x.optional_vars is not None and name in target_names(x.optional_vars):
+                out.add(nd.id)
+            elif isinstance(x, ast.comprehension):
+                pass  # (a comprehension has a scope of its own)
+    return out
+
+
+def fact_since_definition(g: CFG, target: int, name: str, atom, defs: Optional[set[int]] = None) -> bool:
+    """on every path to the CFG node `target`, a branch edge that implies the fact of `atom` (see outcome_implies) is taken AFTER the last
+    binding of the local `name` on that path: the fact is about the value the name has at `target`.  (From every node that binds the
+    name, `target` is not reached without crossing such an edge.)"""
+    edges = fact_edges(g, atom)
+    ds = definition_nodes(g, name) if defs is None else defs
+    if not ds:
+        ds = {g.entry}
+    return target not in _reach_from_after(g, ds, edges)
+
+
+def _reach_from_after(g: CFG, srcs: set[int], cut: set[tuple[int, int]]) -> set[int]:
+    """nodes reachable from the successors of `srcs` (the sources themselves only if a path leads back to them) without an edge of `cut`"""
+    seen: set[int] = set()
+    stack = [s for n in srcs for s in g.succ[n] if (n, s) not in cut]
+    while stack:
+        n = stack.pop()
+        if n in seen:
+            continue
+        seen.add(n)
+        stack.extend(s for s in g.succ[n] if (n, s) not in cut and s not in seen)
+    return seen
